@@ -453,7 +453,11 @@ def bounded_random(unit, seed, n):
     evals = 0
     failures = []
     skipped = 0
+    import time as _t
+    t_end = _t.time() + float(os.environ.get("PYVC_BOUNDED_SECS", "45"))
     for k in range(n):
+        if _t.time() > t_end:
+            break
         S = RandS(rng)
         unit.shard = rng.randrange(unit.shards)
         try:
